@@ -307,6 +307,18 @@ func racePool(ctx *core.Ctx) *par.Pool {
 	return p
 }
 
+// plainPool returns a pool running the uninstrumented worker (conformance).
+func plainPool(ctx *core.Ctx) *par.Pool {
+	dir := os.Getenv("VERIF_BUILD_DIR")
+	bin := filepath.Join(dir, "worker-plain")
+	if _, err := os.Stat(bin); dir == "" || err != nil {
+		return nil
+	}
+	p := par.NewPool(ctx.Procs, "child")
+	p.Bin = bin
+	return p
+}
+
 func lockScenarios(quick bool) (ps []interface{}, names []string) {
 	add := func(p LockParams) {
 		ps = append(ps, p)
